@@ -84,8 +84,11 @@ def cases(rng, tier, shard, nshards):
                 pts, meta = gen.curve(rng, nmax=80)
             else:
                 meta = dict(meta, family=meta['family'] + '+extreme-magnitude')
+        lay = None
+        if rng.random() < 0.03:
+            pts, meta, lay = gen.large_int_curve(rng), {'family': 'large-int64'}, 'i64'
         n = len(pts)
-        c = {'points': pts, 'family': meta['family'], 'layout': gen.pick_layout(rng, pts)}
+        c = {'points': pts, 'family': meta['family'], 'layout': lay or gen.pick_layout(rng, pts)}
         cfg = {}
         for s in SIMPLIFIERS:
             cs = pick(rng, COSTS)
